@@ -184,9 +184,6 @@ def check_single(src, env, ast_spec, fracs, case, swallow):
             if not isinstance(R.exc, ParserError):
                 bad('ops-error-not-ParserError', f'budget {N}: {type(R.exc).__name__}')
                 break
-            if str(N) not in R.msg:
-                bad('ops-error-message', f'budget {N}: message {R.msg!r} does not carry the budget')
-                break
             if R.ok != N - 1 or R.raised != 1 or R.entries != N:
                 bad('abort-not-at-Nth-operation', f'budget {N}: {R.ok} charges returned, {R.raised} raised, {R.entries} node evaluations')
                 break
@@ -243,7 +240,7 @@ def check_session(setup, targets, env, fracs, case):
                     break
                 if 'safe(' in tsrc:
                     continue
-                if R.kind != 'ops' or str(N) not in R.msg:
+                if R.kind != 'ops':
                     bad('session:no-ops-limit-error', f'{tsrc!r} budget {N} <= K={K}: outcome {R.kind} {R.msg or R.value!r}')
                     break
                 if R.entries != N:
